@@ -27,6 +27,21 @@ pub struct PackedAMeta<const MR: usize> {
     pub zero_points: [i32; MR],
 }
 
+impl<const MR: usize> PackedAMeta<MR> {
+    /// Return the zero points to use for each row in this panel.
+    ///
+    /// `zero_point` contains the zero points for the rows in this panel that
+    /// were passed to the GEMM operation. If specified, these are used in
+    /// preference to the zero points that were stored when the panel was
+    /// packed. Prepacked matrices are packed before the zero points are known.
+    pub fn zero_points_for(&self, zero_point: Option<&[u8]>) -> [i32; MR] {
+        match zero_point {
+            Some(zp) => std::array::from_fn(|r| zp.get(r).copied().unwrap_or(0) as i32),
+            None => self.zero_points,
+        }
+    }
+}
+
 // Safety: PackedAMeta meets requirements for AsBytes, FromBytes.
 unsafe impl<const MR: usize> AsBytes for PackedAMeta<MR> {}
 unsafe impl<const MR: usize> FromBytes for PackedAMeta<MR> {}
@@ -40,6 +55,24 @@ pub struct PackedBMeta<const NR: usize> {
 
     /// Zero points for each column.
     pub zero_points: [i32; NR],
+}
+
+impl<const NR: usize> PackedBMeta<NR> {
+    /// Return the zero points to use for each column in this panel.
+    ///
+    /// `zero_point` contains the zero points for the columns in this panel
+    /// that were passed to the GEMM operation. If specified, these are used in
+    /// preference to the zero points that were stored when the panel was
+    /// packed. Prepacked matrices are packed before the zero points are known.
+    ///
+    /// This must only be used with panels packed by [`pack_b`], where the
+    /// elements are not shifted to `u8`.
+    pub fn zero_points_for(&self, zero_point: Option<&[i8]>) -> [i32; NR] {
+        match zero_point {
+            Some(zp) => std::array::from_fn(|c| zp.get(c).copied().unwrap_or(0) as i32),
+            None => self.zero_points,
+        }
+    }
 }
 
 // Safety: PackedAMeta meets requirements for AsBytes, FromBytes.
